@@ -582,6 +582,11 @@ func (e *Eval) call(n *Node) Val {
 				v = Val{T: "0", Sort: "Int"}
 			}
 			return Val{T: fmt.Sprintf("(store %s %s %s)", a.T, i.T, v.T), Sort: e.sortOf(a)}
+		case "oncedone":
+			// oncedone(o): the sync.Once at address o has run
+			v := e.eval(args[0])
+			x.regComp("Once:done", "(Array Int Bool)")
+			return Val{T: fmt.Sprintf("(select %s %s)", x.get(e.st, "Once:done"), v.T), Sort: "Bool"}
 		case "firstload":
 			// firstload(loc): the value returned by this call's first atomic load of loc
 			v := e.eval(args[0])
